@@ -253,10 +253,9 @@ func H_C19_prefixdb_differential() {
 	}
 	// the prefix slice has spare capacity, as a []byte("p") literal or a slice of a buffer has
 	pfx := verifNondetBytes(plen + 2)[:plen]
-	fkl := 1
-	if verifThorough() {
-		fkl = 1 + verifCase(2)
-	}
+	// a neighbour of the prefix range in the base DB: one byte, or two (the keys strictly between
+	// cpDecr(prefix) and prefix - where a reverse scan with an open end runs into - have two)
+	fkl := 1 + verifCase(2)
 	fk := verifNondetBytes(fkl)
 	foreign := !bytes.HasPrefix(fk, pfx)
 	if foreign {
